@@ -25,6 +25,11 @@ func init() {
 	register(&Scenario{Name: "elec", Prop: "C19", Doc: "phase 1: one task issues create/add/update/delete/set-active/change-active/clear-active on up to 4 modes through Model or through the ElectricApi/MemorySettingsApi server, invariants and per-operation postconditions after every call; phase 2: 2-4 such tasks concurrently (parking inside the underlying Value/Collection operations while holding the model mutex), invariants at quiescence; PullModes/PullActiveMode streams fold to Modes()/ActiveMode()",
 		Run:  elecRun,
 		Real: []string{"pkg/trait/electricpb Model, ModelServer (ElectricApi, MemorySettingsApi)", "pkg/resource", "internal/minibus"}, Stub: []string{"caller tasks", "injected clock.Clock", "seeded rand"}})
+	// the same workload judged for C02: operations that span the model's two resources (find the normal mode in one,
+	// make it active in the other) are one atomic step for every concurrent caller
+	register(&Scenario{Name: "lin-elec", Prop: "C02", Doc: "the electric model's workload (2-4 callers issuing create/add/update/delete/change-active/clear-active at the same time, parked inside the underlying Value/Collection operations) judged for atomicity across the model's two resources: whatever the others do, a clear-active selects and returns a mode that is marked normal, and a delete with allow-missing succeeds",
+		Run:  elecRun,
+		Real: []string{"pkg/trait/electricpb Model, ModelServer", "pkg/resource"}, Stub: []string{"caller tasks", "injected clock.Clock", "seeded rand"}})
 }
 
 // modelClock implements clock.Clock on top of the simulated clock.
@@ -81,6 +86,9 @@ type elecWorld struct {
 	nextT   int
 	active  bool // the active mode was changed at least once (successfully)
 	usedSet bool // SetActiveMode (documented not to stamp a start time) was used in this run
+	// the latest start time any change-active / clear-active has returned, and the mode it was on (tasks run one at a time)
+	maxStamp   time.Time
+	maxStampID string
 }
 
 func (e *elecWorld) apply(o elecOp) elecRes {
@@ -135,7 +143,16 @@ func (e *elecWorld) apply(o elecOp) elecRes {
 		err = e.m.SetActiveMode(&traits.ElectricMode{Id: o.ID, Title: "set"})
 	case "change":
 		if o.ViaServer {
-			r.Mode, err = e.srv.UpdateActiveMode(ctx, &traits.UpdateActiveModeRequest{ActiveMode: &traits.ElectricMode{Id: o.ID}})
+			// (a request may carry more than the id, and a mask: the mode is selected by id all the same)
+			req := &traits.UpdateActiveModeRequest{ActiveMode: &traits.ElectricMode{Id: o.ID}}
+			if o.HasMask {
+				req.ActiveMode.Title, req.ActiveMode.Voltage = "req", 230
+				req.UpdateMask = &fieldmaskpb.FieldMask{Paths: o.Mask}
+			}
+			r.Mode, err = e.srv.UpdateActiveMode(ctx, req)
+			if o.HasMask && err == nil {
+				e.w.Fault("change-with-mask")
+			}
 		} else {
 			r.Mode, err = e.m.ChangeActiveMode(o.ID)
 		}
@@ -147,6 +164,9 @@ func (e *elecWorld) apply(o elecOp) elecRes {
 		}
 	}
 	r.Code = errCode(err)
+	if st := r.Mode.GetStartTime(); err == nil && (o.Kind == "change" || o.Kind == "clear") && st != nil && st.AsTime().After(e.maxStamp) {
+		e.maxStamp, e.maxStampID = st.AsTime(), r.Mode.GetId()
+	}
 	r.T1 = e.clk.Peek().Add(time.Nanosecond)
 	return r
 }
@@ -220,6 +240,16 @@ func elecGenOp(t *Tape, ids []string, n *int) elecOp {
 		o.Kind, o.ID, o.ViaServer = "set", id, false
 	case 8, 9:
 		o.Kind, o.ID = "change", id
+		if o.ViaServer {
+			switch t.Choose(6) {
+			case 1:
+				o.HasMask, o.Mask = true, []string{"id"}
+			case 2:
+				o.HasMask, o.Mask = true, []string{"voltage"}
+			case 3:
+				o.HasMask, o.Mask = true, []string{"id", "title"}
+			}
+		}
 	default:
 		o.Kind = "clear"
 	}
@@ -359,6 +389,7 @@ func elecRun(w *World) {
 	nt := 0
 	if !failed && !w.truncated && !w.Deadlocked && t.Flag(3, 4) {
 		nt = 2 + t.Choose(3)
+		storm := t.Flag(1, 3)
 		for i := 0; i < nt; i++ {
 			k := 1 + t.Choose(3)
 			var ops []elecOp
@@ -367,7 +398,20 @@ func elecRun(w *World) {
 				if len(created) > 0 && t.Flag(1, 3) {
 					pool = created
 				}
-				ops = append(ops, elecGenOp(t, pool, &nop))
+				o := elecGenOp(t, pool, &nop)
+				if storm && t.Flag(2, 3) {
+					// (switching back and forth: requests that select a mode, with and without masks, and clears)
+					o = elecOp{Title: o.Title, Kind: "change", ID: pool[t.Choose(len(pool))], ViaServer: t.Flag(2, 3)}
+					switch t.Choose(4) {
+					case 0:
+						o.Kind, o.ID = "clear", ""
+					case 1:
+						if o.ViaServer {
+							o.HasMask, o.Mask = true, [][]string{{"voltage"}, {"id", "title"}, {"title", "voltage"}}[t.Choose(3)]
+						}
+					}
+				}
+				ops = append(ops, o)
 			}
 			w.Go(fmt.Sprintf("c%d", i), false, func(task *Task) {
 				for _, o := range ops {
@@ -402,6 +446,12 @@ func elecRun(w *World) {
 			if !e.invariants(s, "at quiescence after concurrent callers") {
 				return
 			}
+			// The model clock is strictly increasing and switches are stamped one at a time, each with the clock's time at
+			// that switch: the mode that is active in the end was switched to last, so no call can have been given a later
+			// stamp than the one it carries (SetActiveMode does not stamp: runs that used it are not judged).
+			if am := e.m.ActiveMode(); !e.usedSet && am.GetStartTime() != nil && e.maxStamp.After(am.GetStartTime().AsTime()) && e.maxStampID != am.GetId() {
+				w.Violate("start-time", fmt.Sprintf("at rest the active mode is %q with start time %d, but the switch to %q was stamped %d: the last switch was to %q, and its start time is not the model clock's time at that switch", am.GetId(), am.GetStartTime().AsTime().UnixNano(), e.maxStampID, e.maxStamp.UnixNano(), am.GetId()), map[string]any{"observer": "final"})
+			}
 			// streams
 			view := map[string]*traits.ElectricMode{}
 			for _, c := range modeEvents {
@@ -431,11 +481,27 @@ func elecRun(w *World) {
 			}
 			// (only an exact stream: a lossy one may skip the stamped event and deliver a later, legitimately unstamped,
 			// re-selection of the same mode; for the same reason somebody polling ActiveMode() proves nothing)
-			for i := 1; i < len(activeEvents) && !e.usedSet && bp; i++ {
-				p, c := activeEvents[i-1].ActiveMode, activeEvents[i].ActiveMode
-				if c.GetId() != p.GetId() && c.GetId() != "" && c.GetStartTime() == nil {
-					w.Violate("start-time", fmt.Sprintf("PullActiveMode reported the switch from %q to %q without a start time", p.GetId(), c.GetId()), map[string]any{"observer": "stream"})
-					break
+			// (the model clock is strictly increasing and switches are stamped one at a time: along an exact stream the
+			// stamps of the switches increase)
+			var stamped time.Time
+			if !e.usedSet && bp && len(activeEvents) > 2 {
+				w.Fault("stamp-order-judged")
+			}
+			for i := 0; i < len(activeEvents) && !e.usedSet && bp; i++ {
+				c := activeEvents[i].ActiveMode
+				if i > 0 {
+					p := activeEvents[i-1].ActiveMode
+					if c.GetId() != p.GetId() && c.GetId() != "" && c.GetStartTime() == nil {
+						w.Violate("start-time", fmt.Sprintf("PullActiveMode reported the switch from %q to %q without a start time", p.GetId(), c.GetId()), map[string]any{"observer": "stream"})
+						break
+					}
+					if c.GetId() != p.GetId() && c.GetId() != "" && !c.GetStartTime().AsTime().After(stamped) {
+						w.Violate("start-time", fmt.Sprintf("PullActiveMode reported the switch from %q to %q with start time %d, which is not the model clock's time at that switch: an earlier event was already stamped %d", p.GetId(), c.GetId(), c.GetStartTime().AsTime().UnixNano(), stamped.UnixNano()), map[string]any{"observer": "stream-order"})
+						break
+					}
+				}
+				if st := c.GetStartTime(); st != nil && st.AsTime().After(stamped) {
+					stamped = st.AsTime()
 				}
 			}
 			if len(activeEvents) > 0 {
